@@ -237,4 +237,324 @@ theorem compile_resLe : ∀ (e : Expr) (m : Mode) (F : Frame) (code : Code) (out
     exact (ResLe.of_locals_eq h1).trans ((ihc .any F1 cc oc F2 hcc hw1).trans ((ResLe.of_locals_eq p1).trans
       (iht _ F3 ct ot F4 hct hw3)))
 
+/-! ## replaying a compilation in a larger frame -/
+
+/-- `G1` has the locals and the temporary base of `G` -/
+def SameLoc (G G1 : Frame) : Prop := G1.locals = G.locals ∧ G1.tb = G.tb
+
+theorem SameLoc.refl (G : Frame) : SameLoc G G := ⟨rfl, rfl⟩
+
+theorem SameLoc.trans {A B C : Frame} (h1 : SameLoc A B) (h2 : SameLoc B C) : SameLoc A C :=
+  ⟨by rw [h2.1, h1.1], by rw [h2.2, h1.2]⟩
+
+theorem SameLoc.frameLe {G G1 : Frame} (h : SameLoc G G1) : FrameLe G G1 := FrameLe.of_locals_eq h.1 h.2
+
+theorem SameLoc.wf {G G1 : Frame} (h : SameLoc G G1) (hw : WF G) : WF G1 := hw.of_locals_eq h.1 h.2
+
+/-- the context facts of a replay, transported to a frame with the same locals and to an earlier
+frame of the original compilation -/
+theorem stable_ctx {G G1 A B : Frame} (hw : WF G) (hn : NoRes G) (hle : FrameLe B G) (hAB : FrameLe A B)
+    (hs : SameLoc G G1) : WF G1 ∧ NoRes G1 ∧ FrameLe A G1 :=
+  ⟨hs.wf hw, hn.of_locals_eq hs.1, (hAB.trans hle).trans hs.frameLe⟩
+
+theorem pushReg_sim {F F1 G : Frame} {r : Reg} (h : F.pushReg = some (r, F1)) (htb : G.tb = F.tb)
+    (htc : G.tc = F.tc) : ∃ G1, G.pushReg = some (r, G1) ∧ SameLoc G G1 ∧ G1.tc = F1.tc := by
+  unfold Frame.pushReg at h ⊢
+  simp only at h ⊢
+  split at h
+  · cases h
+  · rename_i hlt
+    cases h
+    have hlt' : ¬ (G.tb + G.tc ≥ 255) := by rw [htb, htc]; exact hlt
+    simp only [hlt', if_false]
+    refine ⟨{ G with tc := G.tc + 1, tmax := max G.tmax (G.tc + 1) }, by rw [htb, htc], ⟨rfl, rfl⟩, ?_⟩
+    simp only [htc]
+
+theorem assignResult_sim {m : Mode} {F F1 G : Frame} {res : Out} (h : assignResult m F = some (res, F1))
+    (htb : G.tb = F.tb) (htc : G.tc = F.tc) :
+    ∃ G1, assignResult m G = some (res, G1) ∧ SameLoc G G1 ∧ G1.tc = F1.tc := by
+  unfold assignResult at h ⊢
+  cases m with
+  | fixed r => simp at h; obtain ⟨rfl, rfl⟩ := h; exact ⟨G, rfl, SameLoc.refl _, htc⟩
+  | none => simp at h; obtain ⟨rfl, rfl⟩ := h; exact ⟨G, rfl, SameLoc.refl _, htc⟩
+  | any =>
+    simp only [Option.map_eq_some_iff, Prod.exists] at h
+    obtain ⟨r, F2, hp, h⟩ := h
+    simp only [Prod.mk.injEq] at h
+    obtain ⟨rfl, rfl⟩ := h
+    obtain ⟨G1, g1, g2, g3⟩ := pushReg_sim hp htb htc
+    exact ⟨G1, by simp [g1], g2, g3⟩
+
+theorem popIf_sim {b : Bool} {F F1 G : Frame} (h : popIf b F = some F1) (htc : G.tc = F.tc) :
+    ∃ G1, popIf b G = some G1 ∧ SameLoc G G1 ∧ G1.tc = F1.tc := by
+  unfold popIf at h ⊢
+  cases b with
+  | false => simp at h; subst h; exact ⟨G, by simp, SameLoc.refl _, htc⟩
+  | true =>
+    simp only [if_true] at h ⊢
+    unfold Frame.popReg at h ⊢
+    split at h
+    · cases h
+    · rename_i hne
+      cases h
+      have hne' : ¬ (G.tc = 0) := by rw [htc]; exact hne
+      simp only [hne', if_false]
+      refine ⟨{ G with tc := G.tc - 1 }, rfl, ⟨rfl, rfl⟩, ?_⟩
+      simp only [htc]
+
+theorem resultOrTemp_sim {res : Out} {F F1 G : Frame} {reg : Reg} (h : resultOrTemp res F = some (reg, F1))
+    (htb : G.tb = F.tb) (htc : G.tc = F.tc) :
+    ∃ G1, resultOrTemp res G = some (reg, G1) ∧ SameLoc G G1 ∧ G1.tc = F1.tc := by
+  unfold resultOrTemp at h ⊢
+  cases hr : res.reg with
+  | some r => simp [hr] at h; obtain ⟨rfl, rfl⟩ := h; exact ⟨G, rfl, SameLoc.refl _, htc⟩
+  | none => simp only [hr] at h ⊢; exact pushReg_sim h htb htc
+
+theorem getAssigned_sim {F G : Frame} {x : VarId} {r : Reg} (h : F.getAssigned x = some r)
+    (hle : FrameLe F G) (hw : WF G) : G.getAssigned x = some r :=
+  has_getAssigned hw (hle.has _ _ (getAssigned_has h))
+
+theorem reserve_sim {G : Frame} {x : VarId} {rx : Reg} (hn : Named G rx x) (hw : WF G) :
+    G.reserve x = some (rx, G) := by
+  unfold Frame.reserve
+  cases hg : G.getAssignedOrReserved x with
+  | some r0 =>
+    have := hw.uniq r0 rx x (getAOR_named hg) hn
+    subst this
+    rfl
+  | none => exact absurd hn (getAOR_none hg rx)
+
+theorem commit_sim {G : Frame} {x : VarId} {rx : Reg} (h : Has G rx x) : G.commit rx = some G := by
+  unfold Frame.commit
+  unfold Has at h
+  simp [h]
+
+theorem compile_stable : ∀ (e : Expr) (m : Mode) (F : Frame) (code : Code) (out : Out) (F' : Frame),
+    compile e m F = some (code, out, F') → WF F →
+    ∀ G, WF G → NoRes G → FrameLe F' G → G.tc = F.tc →
+      ∃ G', compile e m G = some (code, out, G') ∧ SameLoc G G' ∧ G'.tc = F'.tc := by
+  intro e
+  induction e with
+  | null | bool _ | int _ =>
+    intro m F code out F' h hw G hwG hnG hle htc
+    simp only [compile, bind, Option.bind_eq_some_iff, Prod.exists, pure, Option.some.injEq, Prod.mk.injEq] at h
+    obtain ⟨res, F1, ha, rfl, rfl, rfl⟩ := h
+    obtain ⟨h1, h2, _⟩ := assignResult_spec ha
+    have htb : G.tb = F.tb := by rw [hle.tb, h2]
+    obtain ⟨G1, ga, gs1, gt1⟩ := assignResult_sim ha htb htc
+    exact ⟨G1, by simp [compile, ga], gs1, gt1⟩
+  | var x =>
+    intro m F code out F' h hw G hwG hnG hle htc
+    simp only [compile] at h
+    cases hg : F.getAssigned x with
+    | none => simp [hg] at h
+    | some rx =>
+      simp only [hg] at h
+      cases m <;>
+        (simp at h; obtain ⟨rfl, rfl, rfl⟩ := h
+         exact ⟨G, by simp [compile, getAssigned_sim hg hle hwG], SameLoc.refl _, htc⟩)
+  | un op e ih =>
+    intro m F code out F' h hw G hwG hnG hle htc
+    simp only [compile, bind, Option.bind_eq_some_iff, Prod.exists, pure, Option.some.injEq, Prod.mk.injEq] at h
+    obtain ⟨res, F1, ha, c, o, F2, hc, vr, hvr, F3, hp, rfl, rfl, rfl⟩ := h
+    obtain ⟨h1, h2, _⟩ := assignResult_spec ha
+    have hw1 := hw.of_locals_eq h1 h2
+    have ff := compile_frame e .any F1 c o F2 hc hw1
+    obtain ⟨p1, p2, _⟩ := popIf_spec hp
+    have htb : G.tb = F.tb := by rw [hle.tb, p2, ff.le.tb, h2]
+    obtain ⟨G1, ga, gs1, gt1⟩ := assignResult_sim ha htb htc
+    obtain ⟨w1, n1, l1⟩ := stable_ctx hwG hnG hle (FrameLe.of_locals_eq p1 p2) gs1
+    obtain ⟨G2, gc, gs2, gt2⟩ := ih .any F1 c o F2 hc hw1 G1 w1 n1 l1 gt1
+    obtain ⟨G3, gp, gs3, gt3⟩ := popIf_sim hp gt2
+    exact ⟨G3, by simp [compile, ga, gc, hvr, gp], gs1.trans (gs2.trans gs3), gt3⟩
+  | bin op a b iha ihb =>
+    intro m F code out F' h hw G hwG hnG hle htc
+    simp only [compile, bind, Option.bind_eq_some_iff, Prod.exists] at h
+    obtain ⟨res, F1, ha, h⟩ := h
+    obtain ⟨h1, h2, _⟩ := assignResult_spec ha
+    have hw1 := hw.of_locals_eq h1 h2
+    cases hr : res.reg with
+    | some r =>
+      simp only [hr, Option.bind_eq_some_iff, Prod.exists, pure, Option.some.injEq, Prod.mk.injEq] at h
+      obtain ⟨ca, oa, F2, hca, ra, hra, cb, ob, F3, hcb, rb, hrb, F4, hp1, F5, hp2, rfl, rfl, rfl⟩ := h
+      have ffa := compile_frame a .any F1 ca oa F2 hca hw1
+      have ffb := compile_frame b .any F2 cb ob F3 hcb ffa.wf
+      obtain ⟨p1, p2, _⟩ := popIf_spec hp1
+      obtain ⟨q1, q2, _⟩ := popIf_spec hp2
+      have le35 : FrameLe F3 F5 := (FrameLe.of_locals_eq p1 p2).trans (FrameLe.of_locals_eq q1 q2)
+      have htb : G.tb = F.tb := by rw [hle.tb, le35.tb, ffb.le.tb, ffa.le.tb, h2]
+      obtain ⟨G1, ga, gs1, gt1⟩ := assignResult_sim ha htb htc
+      obtain ⟨w1, n1, l1⟩ := stable_ctx hwG hnG hle (ffb.le.trans le35) gs1
+      obtain ⟨G2, gca, gs2, gt2⟩ := iha .any F1 ca oa F2 hca hw1 G1 w1 n1 l1 gt1
+      obtain ⟨w2, n2, l2⟩ := stable_ctx hwG hnG hle le35 (gs1.trans gs2)
+      obtain ⟨G3, gcb, gs3, gt3⟩ := ihb .any F2 cb ob F3 hcb ffa.wf G2 w2 n2 l2 gt2
+      obtain ⟨G4, gp1, gs4, gt4⟩ := popIf_sim hp1 gt3
+      obtain ⟨G5, gp2, gs5, gt5⟩ := popIf_sim hp2 gt4
+      exact ⟨G5, by simp [compile, ga, hr, gca, hra, gcb, hrb, gp1, gp2],
+        gs1.trans (gs2.trans (gs3.trans (gs4.trans gs5))), gt5⟩
+    | none =>
+      simp only [hr, Option.bind_eq_some_iff, Prod.exists, pure, Option.some.injEq, Prod.mk.injEq] at h
+      obtain ⟨ca, oa, F2, hca, cb, ob, F3, hcb, rfl, rfl, rfl⟩ := h
+      have ffa := compile_frame a .none F1 ca oa F2 hca hw1
+      have ffb := compile_frame b .none F2 cb ob F3 hcb ffa.wf
+      have htb : G.tb = F.tb := by rw [hle.tb, ffb.le.tb, ffa.le.tb, h2]
+      obtain ⟨G1, ga, gs1, gt1⟩ := assignResult_sim ha htb htc
+      obtain ⟨w1, n1, l1⟩ := stable_ctx hwG hnG hle ffb.le gs1
+      obtain ⟨G2, gca, gs2, gt2⟩ := iha .none F1 ca oa F2 hca hw1 G1 w1 n1 l1 gt1
+      obtain ⟨w2, n2, l2⟩ := stable_ctx hwG hnG hle (FrameLe.refl _) (gs1.trans gs2)
+      obtain ⟨G3, gcb, gs3, gt3⟩ := ihb .none F2 cb ob F3 hcb ffa.wf G2 w2 n2 l2 gt2
+      exact ⟨G3, by simp [compile, ga, hr, gca, gcb], gs1.trans (gs2.trans gs3), gt3⟩
+  | cmp op a b iha ihb =>
+    intro m F code out F' h hw G hwG hnG hle htc
+    simp only [compile, bind, Option.bind_eq_some_iff, Prod.exists, pure, Option.some.injEq, Prod.mk.injEq] at h
+    obtain ⟨res, F1, ha, r0, F1', hrt, ca, oa, F2, hca, ra, hra, cb, ob, F3, hcb, rb, hrb, rfl, rfl, rfl⟩ := h
+    obtain ⟨h1, h2, _⟩ := assignResult_spec ha
+    have hw1 := hw.of_locals_eq h1 h2
+    obtain ⟨t1, t2, _⟩ := resultOrTemp_spec hrt
+    have hw1' := hw1.of_locals_eq t1 t2
+    have ffa := compile_frame a .any F1' ca oa F2 hca hw1'
+    have ffb := compile_frame b .any F2 cb ob F3 hcb ffa.wf
+    have le3 : FrameLe F3 { F3 with tc := F1.tc } := FrameLe.of_locals_eq rfl rfl
+    have htb : G.tb = F.tb := by rw [hle.tb, le3.tb, ffb.le.tb, ffa.le.tb, t2, h2]
+    obtain ⟨G1, ga, gs1, gt1⟩ := assignResult_sim ha htb htc
+    obtain ⟨G1', grt, gs1', gt1'⟩ := resultOrTemp_sim hrt (by rw [gs1.2, htb, h2]) gt1
+    obtain ⟨w1, n1, l1⟩ := stable_ctx hwG hnG hle (ffb.le.trans le3) (gs1.trans gs1')
+    obtain ⟨G2, gca, gs2, gt2⟩ := iha .any F1' ca oa F2 hca hw1' G1' w1 n1 l1 gt1'
+    obtain ⟨w2, n2, l2⟩ := stable_ctx hwG hnG hle le3 (gs1.trans (gs1'.trans gs2))
+    obtain ⟨G3, gcb, gs3, gt3⟩ := ihb .any F2 cb ob F3 hcb ffa.wf G2 w2 n2 l2 gt2
+    refine ⟨{ G3 with tc := G1.tc }, by simp [compile, ga, grt, gca, hra, gcb, hrb], ?_, gt1⟩
+    exact gs1.trans (gs1'.trans (gs2.trans (gs3.trans ⟨rfl, rfl⟩)))
+  | chain3 op1 op2 a b c iha ihb ihc =>
+    intro m F code out F' h hw G hwG hnG hle htc
+    simp only [compile, bind, Option.bind_eq_some_iff, Prod.exists, pure, Option.some.injEq, Prod.mk.injEq] at h
+    obtain ⟨res, F1, ha, r0, F1', hrt, ca, oa, F2, hca, ra, hra, cb, ob, F3, hcb, rb, hrb, cc, oc, F4, hcc, rc, hrc, rfl, rfl, rfl⟩ := h
+    obtain ⟨h1, h2, _⟩ := assignResult_spec ha
+    have hw1 := hw.of_locals_eq h1 h2
+    obtain ⟨t1, t2, _⟩ := resultOrTemp_spec hrt
+    have hw1' := hw1.of_locals_eq t1 t2
+    have ffa := compile_frame a .any F1' ca oa F2 hca hw1'
+    have ffb := compile_frame b .any F2 cb ob F3 hcb ffa.wf
+    have ffc := compile_frame c .any F3 cc oc F4 hcc ffb.wf
+    have le4 : FrameLe F4 { F4 with tc := F1.tc } := FrameLe.of_locals_eq rfl rfl
+    have htb : G.tb = F.tb := by rw [hle.tb, le4.tb, ffc.le.tb, ffb.le.tb, ffa.le.tb, t2, h2]
+    obtain ⟨G1, ga, gs1, gt1⟩ := assignResult_sim ha htb htc
+    obtain ⟨G1', grt, gs1', gt1'⟩ := resultOrTemp_sim hrt (by rw [gs1.2, htb, h2]) gt1
+    obtain ⟨w1, n1, l1⟩ := stable_ctx hwG hnG hle (ffb.le.trans (ffc.le.trans le4)) (gs1.trans gs1')
+    obtain ⟨G2, gca, gs2, gt2⟩ := iha .any F1' ca oa F2 hca hw1' G1' w1 n1 l1 gt1'
+    obtain ⟨w2, n2, l2⟩ := stable_ctx hwG hnG hle (ffc.le.trans le4) (gs1.trans (gs1'.trans gs2))
+    obtain ⟨G3, gcb, gs3, gt3⟩ := ihb .any F2 cb ob F3 hcb ffa.wf G2 w2 n2 l2 gt2
+    obtain ⟨w3, n3, l3⟩ := stable_ctx hwG hnG hle le4 (gs1.trans (gs1'.trans (gs2.trans gs3)))
+    obtain ⟨G4, gcc, gs4, gt4⟩ := ihc .any F3 cc oc F4 hcc ffb.wf G3 w3 n3 l3 gt3
+    refine ⟨{ G4 with tc := G1.tc }, by simp [compile, ga, grt, gca, hra, gcb, hrb, gcc, hrc], ?_, gt1⟩
+    exact gs1.trans (gs1'.trans (gs2.trans (gs3.trans (gs4.trans ⟨rfl, rfl⟩))))
+  | and a b iha ihb | or a b iha ihb =>
+    intro m F code out F' h hw G hwG hnG hle htc
+    simp only [compile, bind, Option.bind_eq_some_iff, Prod.exists, pure, Option.some.injEq, Prod.mk.injEq] at h
+    obtain ⟨res, F1, ha, reg, F2, hrt, ca, oa, F3, hca, cb, ob, F4, hcb, F5, hp, rfl, rfl, rfl⟩ := h
+    obtain ⟨h1, h2, _⟩ := assignResult_spec ha
+    have hw1 := hw.of_locals_eq h1 h2
+    obtain ⟨t1, t2, _⟩ := resultOrTemp_spec hrt
+    have hw2 := hw1.of_locals_eq t1 t2
+    have ffa := compile_frame a (.fixed reg) F2 ca oa F3 hca hw2
+    have ffb := compile_frame b (.fixed reg) F3 cb ob F4 hcb ffa.wf
+    obtain ⟨p1, p2, _⟩ := popIf_spec hp
+    have le45 : FrameLe F4 F5 := FrameLe.of_locals_eq p1 p2
+    have htb : G.tb = F.tb := by rw [hle.tb, le45.tb, ffb.le.tb, ffa.le.tb, t2, h2]
+    obtain ⟨G1, ga, gs1, gt1⟩ := assignResult_sim ha htb htc
+    obtain ⟨G2, grt, gs2, gt2⟩ := resultOrTemp_sim hrt (by rw [gs1.2, htb, h2]) gt1
+    obtain ⟨w1, n1, l1⟩ := stable_ctx hwG hnG hle (ffb.le.trans le45) (gs1.trans gs2)
+    obtain ⟨G3, gca, gs3, gt3⟩ := iha (.fixed reg) F2 ca oa F3 hca hw2 G2 w1 n1 l1 gt2
+    obtain ⟨w2, n2, l2⟩ := stable_ctx hwG hnG hle le45 (gs1.trans (gs2.trans gs3))
+    obtain ⟨G4, gcb, gs4, gt4⟩ := ihb (.fixed reg) F3 cb ob F4 hcb ffa.wf G3 w2 n2 l2 gt3
+    obtain ⟨G5, gp, gs5, gt5⟩ := popIf_sim hp gt4
+    exact ⟨G5, by simp [compile, ga, grt, gca, gcb, gp], gs1.trans (gs2.trans (gs3.trans (gs4.trans gs5))), gt5⟩
+  | assign x e ih =>
+    intro m F code out F' h hw G hwG hnG hle htc
+    simp only [compile, bind, Option.bind_eq_some_iff, Prod.exists, pure, Option.some.injEq, Prod.mk.injEq] at h
+    obtain ⟨rx, F1, hres, c, o, F2, hc, vr, hvr, F3, hcm, rfl, rfl, rfl⟩ := h
+    obtain ⟨r1, r2, r3, r4, _, _⟩ := reserve_spec hw hres
+    have ff := compile_frame e (.fixed rx) F1 c o F2 hc r2
+    have so : o = ⟨some rx, false⟩ := ff.shape
+    subst so
+    simp only [Option.some.injEq] at hvr
+    subst hvr
+    simp only [commitIf, Bool.false_eq_true, if_false] at hcm
+    obtain ⟨_, _, c3, c4, c5, c6, _⟩ := commit_spec ff.wf (ff.le.named _ _ r1) hcm
+    have le23 : FrameLe F2 F3 := ⟨c3, c5, c6⟩
+    have hnG' : Named G rx x := hle.named _ _ (le23.named _ _ (ff.le.named _ _ r1))
+    have gres := reserve_sim hnG' hwG
+    obtain ⟨G2, gc, gs2, gt2⟩ := ih (.fixed rx) F1 c _ F2 hc r2 G hwG hnG (le23.trans hle) (by rw [htc, r4])
+    have hhas : Has G2 rx x := gs2.frameLe.has _ _ (hnG.has hnG')
+    refine ⟨G2, ?_, gs2, by rw [gt2, c4]⟩
+    simp [compile, gres, gc, commitIf, commit_sim hhas]
+  | compound op x e ih =>
+    intro m F code out F' h hw G hwG hnG hle htc
+    simp only [compile, bind, Option.bind_eq_some_iff, Prod.exists, pure, Option.some.injEq, Prod.mk.injEq] at h
+    obtain ⟨res, F1, ha, cr, orr, F2, hc, rr, hrr, rl, hrl, F5, hp, rfl, rfl, rfl⟩ := h
+    obtain ⟨h1, h2, _⟩ := assignResult_spec ha
+    have hw1 := hw.of_locals_eq h1 h2
+    have ff := compile_frame e .any F1 cr orr F2 hc hw1
+    obtain ⟨p1, p2, _⟩ := popIf_spec hp
+    have le25 : FrameLe F2 F5 := FrameLe.of_locals_eq p1 p2
+    have htb : G.tb = F.tb := by rw [hle.tb, le25.tb, ff.le.tb, h2]
+    obtain ⟨G1, ga, gs1, gt1⟩ := assignResult_sim ha htb htc
+    obtain ⟨w1, n1, l1⟩ := stable_ctx hwG hnG hle le25 gs1
+    obtain ⟨G2, gc, gs2, gt2⟩ := ih .any F1 cr orr F2 hc hw1 G1 w1 n1 l1 gt1
+    obtain ⟨w2, _, l2⟩ := stable_ctx hwG hnG hle le25 (gs1.trans gs2)
+    have grl := getAssigned_sim hrl l2 w2
+    obtain ⟨G5, gp, gs5, gt5⟩ := popIf_sim hp gt2
+    exact ⟨G5, by simp [compile, ga, gc, hrr, grl, gp], gs1.trans (gs2.trans gs5), gt5⟩
+  | seq a b iha ihb =>
+    intro m F code out F' h hw G hwG hnG hle htc
+    simp only [compile, bind, Option.bind_eq_some_iff, Prod.exists, pure, Option.some.injEq, Prod.mk.injEq] at h
+    obtain ⟨ca, oa, F1, hca, cb, o, F2, hcb, rfl, rfl, rfl⟩ := h
+    have ffa := compile_frame a .none F ca oa F1 hca hw
+    have ffb := compile_frame b m F1 cb o F2 hcb ffa.wf
+    obtain ⟨G1, gca, gs1, gt1⟩ := iha .none F ca oa F1 hca hw G hwG hnG (ffb.le.trans hle) htc
+    obtain ⟨w1, n1, l1⟩ := stable_ctx hwG hnG hle (FrameLe.refl _) gs1
+    obtain ⟨G2, gcb, gs2, gt2⟩ := ihb m F1 cb o F2 hcb ffa.wf G1 w1 n1 l1 gt1
+    exact ⟨G2, by simp [compile, gca, gcb], gs1.trans gs2, gt2⟩
+  | ite c t e ihc iht ihe =>
+    intro m F code out F' h hw G hwG hnG hle htc
+    simp only [compile, bind, Option.bind_eq_some_iff, Prod.exists, pure, Option.some.injEq, Prod.mk.injEq] at h
+    obtain ⟨res, F1, ha, cc, oc, F2, hcc, rc, hrc, F3, hp, ct, ot, F4, hct, ce, oe, F5, hce, rfl, rfl, rfl⟩ := h
+    obtain ⟨h1, h2, _⟩ := assignResult_spec ha
+    have hw1 := hw.of_locals_eq h1 h2
+    have ffc := compile_frame c .any F1 cc oc F2 hcc hw1
+    obtain ⟨p1, p2, _⟩ := popIf_spec hp
+    have hw3 := ffc.wf.of_locals_eq p1 p2
+    have fft := compile_frame t (branchMode res.reg) F3 ct ot F4 hct hw3
+    have ffe := compile_frame e (branchMode res.reg) F4 ce oe F5 hce fft.wf
+    have le23 : FrameLe F2 F3 := FrameLe.of_locals_eq p1 p2
+    have htb : G.tb = F.tb := by rw [hle.tb, ffe.le.tb, fft.le.tb, p2, ffc.le.tb, h2]
+    obtain ⟨G1, ga, gs1, gt1⟩ := assignResult_sim ha htb htc
+    obtain ⟨w1, n1, l1⟩ := stable_ctx hwG hnG hle (le23.trans (fft.le.trans ffe.le)) gs1
+    obtain ⟨G2, gcc, gs2, gt2⟩ := ihc .any F1 cc oc F2 hcc hw1 G1 w1 n1 l1 gt1
+    obtain ⟨G3, gp, gs3, gt3⟩ := popIf_sim hp gt2
+    obtain ⟨w3, n3, l3⟩ := stable_ctx hwG hnG hle ffe.le (gs1.trans (gs2.trans gs3))
+    obtain ⟨G4, gct, gs4, gt4⟩ := iht _ F3 ct ot F4 hct hw3 G3 w3 n3 l3 gt3
+    obtain ⟨w4, n4, l4⟩ := stable_ctx hwG hnG hle (FrameLe.refl _) (gs1.trans (gs2.trans (gs3.trans gs4)))
+    obtain ⟨G5, gce, gs5, gt5⟩ := ihe _ F4 ce oe F5 hce fft.wf G4 w4 n4 l4 gt4
+    exact ⟨G5, by simp [compile, ga, gcc, hrc, gp, gct, gce],
+      gs1.trans (gs2.trans (gs3.trans (gs4.trans gs5))), gt5⟩
+  | ifThen c t ihc iht =>
+    intro m F code out F' h hw G hwG hnG hle htc
+    simp only [compile, bind, Option.bind_eq_some_iff, Prod.exists, pure, Option.some.injEq, Prod.mk.injEq] at h
+    obtain ⟨res, F1, ha, cc, oc, F2, hcc, rc, hrc, F3, hp, ct, ot, F4, hct, rfl, rfl, rfl⟩ := h
+    obtain ⟨h1, h2, _⟩ := assignResult_spec ha
+    have hw1 := hw.of_locals_eq h1 h2
+    have ffc := compile_frame c .any F1 cc oc F2 hcc hw1
+    obtain ⟨p1, p2, _⟩ := popIf_spec hp
+    have hw3 := ffc.wf.of_locals_eq p1 p2
+    have fft := compile_frame t (branchMode res.reg) F3 ct ot F4 hct hw3
+    have le23 : FrameLe F2 F3 := FrameLe.of_locals_eq p1 p2
+    have htb : G.tb = F.tb := by rw [hle.tb, fft.le.tb, p2, ffc.le.tb, h2]
+    obtain ⟨G1, ga, gs1, gt1⟩ := assignResult_sim ha htb htc
+    obtain ⟨w1, n1, l1⟩ := stable_ctx hwG hnG hle (le23.trans fft.le) gs1
+    obtain ⟨G2, gcc, gs2, gt2⟩ := ihc .any F1 cc oc F2 hcc hw1 G1 w1 n1 l1 gt1
+    obtain ⟨G3, gp, gs3, gt3⟩ := popIf_sim hp gt2
+    obtain ⟨w3, n3, l3⟩ := stable_ctx hwG hnG hle (FrameLe.refl _) (gs1.trans (gs2.trans gs3))
+    obtain ⟨G4, gct, gs4, gt4⟩ := iht _ F3 ct ot F4 hct hw3 G3 w3 n3 l3 gt3
+    exact ⟨G4, by simp [compile, ga, gcc, hrc, gp, gct], gs1.trans (gs2.trans (gs3.trans gs4)), gt4⟩
+
 end KotoVerif.Compile
